@@ -651,4 +651,6 @@ pub fn run(e: &Engine) {
         |c| serde_json::to_value(c).unwrap(),
         check_legacy,
     );
+    e.fuzz_corpus("c16_lockstep");
+    e.fuzz_campaign("c16_lockstep", 60000);
 }
